@@ -89,6 +89,21 @@ theorem net_get (r : Rec) (h : r.torque = List.zipWith (· - ·) r.dtorque r.lto
     r.torque[i]? = some (r.dtorque[i] - r.ltorque[i]) := by
   rw [h]; simp [List.getElem?_zipWith, List.getElem?_eq_getElem h1, List.getElem?_eq_getElem h2]
 
+/-- C02 along schedules whose configuration changes between runs (`execSeg`): every surviving record
+    obeys the torque laws of the configuration of one of the segments — the one in force when it was
+    recorded (its motor law, its links, its load function) -/
+theorem C02_segments (sl : Bool) (all : List Cfg) (segs : List (Cfg × List Op)) (p v : Q) (s' : St)
+    (hall : ∀ seg ∈ segs, seg.1 ∈ all ∧ seg.1.sl = sl) (he : execSeg segs (St.init p v) = .ok s') :
+    ∀ r ∈ s'.recs, ∃ c ∈ all,
+      r.dtorque.head? = some (c.motorTorque (r.speed.headD 0) r.pwm) ∧ DriveOK c.links r.dtorque ∧
+      r.ltorque.getLast? = some (c.load (lastD r.pos) (lastD r.speed) r.time) ∧ LoadOK c.links r.ltorque ∧
+      r.torque = List.zipWith (· - ·) r.dtorque r.ltorque := by
+  intro r hr
+  have hinv := execSeg_records sl all segs (St.init p v) s' hall
+    ⟨by intro r hr; simp [St.init] at hr, by intro h; simp [St.init] at h⟩ he
+  obtain ⟨c, hc, hok⟩ := hinv.1 r hr
+  exact ⟨c, hc, hok.drive0, hok.drive, hok.loadLast, hok.load, hok.net⟩
+
 /-! ### non-vacuity -/
 def exCfg : Cfg :=
   { J0 := 1, links := [⟨2, 9/10, 1/2, true⟩, ⟨3, 4/5, 1/4, true⟩], sl := false, tolW := 0, tolT := 0,
